@@ -15,7 +15,7 @@ def jobs(tier):
         for ram in ([0, 3] if q else range(0, 6)):
             js.append(('memory', 'VerifRamMBC3', {'type': t, 'ram': ram}))
     for t in ([0x1b] if q else [0x19, 0x1a, 0x1b, 0x1c, 0x1d, 0x1e]):
-        for ram in ([0, 3] if q else range(0, 6)):
+        for ram in ([0, 3, 4, 5] if q else range(0, 6)):
             js.append(('memory', 'VerifRamMBC5', {'type': t, 'ram': ram}))
     return js
 
